@@ -53,7 +53,7 @@ func c05eGen(t *rapid.T) c05eCase {
 	for i := 0; i < c.Nchan; i++ {
 		c.Proj = append(c.Proj, rapid.Bool().Draw(t, "proj"))
 	}
-	c.Src = rapid.SampledFrom([]string{"", "", "triangle", "simpulse"}).Draw(t, "src")
+	c.Src = rapid.SampledFrom([]string{"", "", "triangle", "simpulse", "lancero"}).Draw(t, "src")
 	if c.Src != "" {
 		c.Decimate = 0
 	}
@@ -63,7 +63,7 @@ func c05eGen(t *rapid.T) c05eCase {
 var c05eCounter int
 
 func c05eRun(c c05eCase) (v vVerdict) {
-	if c.Nchan < 1 || c.Nchan > 8 || len(c.Proj) != c.Nchan || c.Npre < 3 || c.Nsamp < c.Npre+1 || c.Nsamp > 200 || c.Rate <= 0 || c.SubDiv < 1 ||
+	if c.Nchan < 1 || c.Nchan > 8 || (len(c.Proj) != c.Nchan && c.Src != "lancero") || c.Npre < 3 || c.Nsamp < c.Npre+1 || c.Nsamp > 200 || c.Rate <= 0 || c.SubDiv < 1 ||
 		c.Rows < 1 || c.Cols < 1 || c.Rows*c.Cols < c.Nchan || c.Types&7 == 0 || c.NRec < 1 || c.Decimate < 0 {
 		return v
 	}
@@ -79,6 +79,7 @@ func c05eRun(c c05eCase) (v vVerdict) {
 
 	vDrainRecords()
 	var ds *AnySource
+	lanceroRows := 0
 	switch c.Src {
 	case "triangle":
 		ts := NewTriangleSource()
@@ -104,6 +105,39 @@ func c05eRun(c c05eCase) (v vVerdict) {
 			return vFailf("prepare", "%v", err)
 		}
 		ds = &sp.AnySource
+	case "lancero":
+		// one in-memory card of 1-2 columns; Nchan streams = 2 x cols x rows (error and feedback of every column and row)
+		cols := 1 + c.Seed%2
+		rows := c.Nchan/(2*cols) + 2
+		ls, err := NewLanceroSource()
+		if err != nil {
+			return vFailf("prepare", "%v", err)
+		}
+		cg := filepath.Join(root, "cringeGlobals.json")
+		os.WriteFile(cg, []byte(fmt.Sprintf(`{"SETT":1,"seqln":%d,"lsync":20000,"testpattern":0,"propagationdelay":0,"NSAMP":4,"carddelay":0,"XPT":0}`, rows)), 0o644)
+		oldPath := cringeGlobalsPath
+		cringeGlobalsPath = cg
+		defer func() { cringeGlobalsPath = oldPath }()
+		card := &vLiveCard{cols: cols, rows: rows, period: time.Duration(20000 * rows * 8), t0: vPipeT0}
+		ls.devices = map[int]*LanceroDevice{0: {devnum: 0, card: card}}
+		ls.ncards = 1
+		if err := ls.Configure(&LanceroSourceConfig{FiberMask: 0xffff, ActiveCards: []int{0}, CardDelay: []int{1}, FirstRow: 1}); err != nil {
+			return vFailf("prepare", "LanceroSource.Configure: %v", err)
+		}
+		if err := ls.Sample(); err != nil {
+			return vFailf("prepare", "LanceroSource.Sample: %v", err)
+		}
+		if err := ls.PrepareChannels(); err != nil {
+			return vFailf("prepare", "%v", err)
+		}
+		ds = &ls.AnySource
+		c.Nchan = ds.nchan
+		c.Rate = ds.sampleRate
+		c.Proj = make([]bool, c.Nchan)
+		for i := range c.Proj {
+			c.Proj[i] = i%2 == 1 && (c.Seed>>uint(i%8))&1 == 1 // projectors on some feedback channels
+		}
+		lanceroRows = rows
 	default:
 		holder := newScripted(c.Nchan, time.Millisecond, 48)
 		ds = &holder.AnySource
@@ -212,6 +246,11 @@ func c05eRun(c c05eCase) (v vVerdict) {
 			p.ChanNumber, p.ChanName, p.Source = ds.chanNumbers[ch], ds.chanNames[ch], ds.name
 			p.Rows, p.Cols, p.Row, p.Col = rc.rows(), rc.cols(), rc.row(), rc.col()
 			p.SubDiv, p.SubOff = ds.subframeDivisions, ds.subframeOffsets[ch]
+			if lanceroRows > 0 {
+				// doc/LJH.md: for Lancero sources the sub-frame divisions are the number of rows and a channel's sub-frame
+				// offset is its row number (error and feedback of a row are read at the same row time)
+				p.SubDiv, p.SubOff = lanceroRows, rc.row()
+			}
 		}
 		name := ds.processors[ch].Name
 		type fc struct {
